@@ -270,3 +270,33 @@ Definition cop_ok (x : chan_reader * cop * out) : Prop :=
 Definition no_bseek (ops : list bop) : Prop := Forall (fun o => match o with BSeek _ => False | _ => True end) ops.
 Definition no_sseek (ops : list sop) : Prop := Forall (fun o => match o with SSeek _ => False | _ => True end) ops.
 Definition no_cseek (ops : list cop) : Prop := Forall (fun o => match o with CSeek _ => False | _ => True end) ops.
+
+(* ------------------------------------------------------------------ history-level statements *)
+(* C07: at every call of a seek-free history what has been delivered so far is exactly the stream
+   up to the cursor, the call shows the next data, and once a call signals end of stream the whole
+   stream has been delivered, nothing more is delivered, and every later polling call signals it again *)
+Definition exactly_once {A} (data : list A) (atr : list (entry A)) : Prop :=
+  forall pre e post, atr = pre ++ e :: post ->
+    delivered data pre = takeN (e_pos e) data /\
+    prefix (shown e) (dropN (e_pos e) data) /\
+    (eos e = true ->
+       delivered data pre = data /\ delivered data (e :: post) = [] /\
+       Forall (fun x => polls x = true -> eos x = true) post).
+
+(* C06: a seek to a position t inside the stream succeeds (and answers t); until the next seek,
+   what is delivered is data[t..] in order and every call shows the data right after it *)
+Definition seeks_land {A} (data : list A) (atr : list (entry A)) : Prop :=
+  forall pre e post t, atr = pre ++ e :: post -> e_op e = ASeek (Some t) -> seek_free post ->
+    (e_out e = AUnit \/ e_out e = APos t) /\ t <= lenN data /\
+    forall a x b, post = a ++ x :: b ->
+      delivered data a = takeN (lenN (delivered data a)) (dropN t data) /\
+      e_pos x = t + lenN (delivered data a) /\
+      prefix (shown x) (dropN (t + lenN (delivered data a)) data).
+
+(* C06: a seek outside the stream fails; the cursor stays where it was or goes to the end; at the
+   end no data is delivered and every polling call signals end of stream, until the next seek *)
+Definition failed_seeks_safe {A} (data : list A) (atr : list (entry A)) : Prop :=
+  forall pre e post, atr = pre ++ e :: post -> e_op e = ASeek None ->
+    e_out e = AFail /\ (e_pos' e = e_pos e \/ e_pos' e = lenN data) /\
+    (e_pos' e = lenN data -> seek_free post ->
+       delivered data post = [] /\ Forall (fun x => polls x = true -> eos x = true) post).
